@@ -24,7 +24,8 @@ Bad(c) ==
          LET r == Extend(c.G, c.start, SeqToSet(c.excl)) IN
          IF c.st = "hang" THEN "extends-does-not-terminate"
          ELSE IF r.st # c.st THEN "extends-" \o r.st \o "-expected-got-" \o c.st
-         ELSE IF r.st = "ok" /\ Pairs(c.kv) # r.kv THEN "extends-merged-settings" ELSE ""
+         ELSE IF r.st = "ok" /\ Pairs(c.kv) # r.kv THEN "extends-merged-settings"
+         ELSE IF ~c.intact THEN "extends-modified-the-settings" ELSE ""
     [] c.c = "setup" ->
          \* groups: declarations and what Simulator holds after setup: per group the ids and names created
          IF c.out # "ok" THEN "setup-raised-" \o c.out
